@@ -235,7 +235,7 @@ pub(crate) fn add_str_substring<W, R, T>(
             let raw_end = to_primitive!(a2, Int);
             let raw_end = if raw_end.is_negative() { Cow::Owned(raw_end + string.len()) } else { Cow::Borrowed(raw_end) };
             let Some(end) = raw_end.to_usize() else { return xerr(ManagedXError::new("index out of bounds", rt)?); };
-            if end < start { return xerr(ManagedXError::new("index out of bounds", rt)?); }
+            if end < start || start > string.len() { return xerr(ManagedXError::new("index out of bounds", rt)?); }
             if start == 0 && end == string.len(){
                 return Ok(a0.into());
             }
